@@ -1174,3 +1174,68 @@ M('umask_ignored_default', 'C05', FI,
                 do_chmod = False  # respect the umask""",
   """                file_perms = self._default_file_perms
                 do_chmod = self.text_mode  # respect the umask""")
+
+# ---------------------------------------------------------------- C03  (each removes one lock acquisition)
+M('nolock_setitem', 'C03', C,
+  """    def __setitem__(self, key, value):
+        with self._lock:""",
+  """    def __setitem__(self, key, value):
+        if True:""")
+M('nolock_lri_getitem', 'C03', C,
+  """    def __getitem__(self, key):
+        with self._lock:
+            try:
+                link = self._link_lookup[key]""",
+  """    def __getitem__(self, key):
+        if True:
+            try:
+                link = self._link_lookup[key]""")
+M('nolock_lru_getitem', 'C03', C,
+  """    def __getitem__(self, key):
+        with self._lock:
+            try:
+                link = self._get_link_and_move_to_front_of_ll(key)""",
+  """    def __getitem__(self, key):
+        if True:
+            try:
+                link = self._get_link_and_move_to_front_of_ll(key)""")
+M('nolock_delitem', 'C03', C,
+  """    def __delitem__(self, key):
+        with self._lock:""",
+  """    def __delitem__(self, key):
+        if True:""")
+M('nolock_pop', 'C03', C,
+  """        # NB: hit/miss counts are bypassed for pop()
+        with self._lock:""",
+  """        # NB: hit/miss counts are bypassed for pop()
+        if True:""")
+M('nolock_popitem', 'C03', C,
+  """    def popitem(self):
+        with self._lock:""",
+  """    def popitem(self):
+        if True:""")
+M('nolock_clear', 'C03', C,
+  """    def clear(self):
+        with self._lock:""",
+  """    def clear(self):
+        if True:""")
+M('nolock_setdefault', 'C03', C,
+  """    def setdefault(self, key, default=None):
+        with self._lock:""",
+  """    def setdefault(self, key, default=None):
+        if True:""")
+M('nolock_update', 'C03', C,
+  """        # E and F are throwback names to the dict() __doc__
+        with self._lock:""",
+  """        # E and F are throwback names to the dict() __doc__
+        if True:""")
+M('nolock_copy', 'C03', C,
+  """        with self._lock:
+            values = self._get_flattened_ll()[1:]""",
+  """        if True:
+            values = self._get_flattened_ll()[1:]""")
+M('nolock_len', 'C03', C,
+  """        with self._lock:
+            return super().__len__()""",
+  """        if True:
+            return super().__len__()""")
